@@ -36,6 +36,79 @@ def root_cause(mech):
     return None
 
 
+def res_key(mech):
+    """resource / pipeline stream (`C15.res`): (site, summarised mechanical key).  Letters: entity kinds N S M E V G F L,
+    C cbuffer, D cbuffer member, t the `<cbuffer>Type` struct Metal generates, # a declaration the exporter generates itself.
+    A site is attributed only on positive evidence in the key (kinds involved, wrapper context, target); the summarised
+    keys of a site form a small closed set (RES_KNOWN_KEYS) so that another seed cannot produce an unlisted variant."""
+    f = mech.split(":")
+    head = f[0]
+    t = f[1] if len(f) > 1 else ""
+    hlsl = t in ("dx", "vk", "vkba")
+    if head == "reserved-unrenamed" and len(f) == 3:
+        if f[2] == "M":
+            return "struct-member-not-in-namemap", mech
+        if f[2] in "CD" and hlsl:
+            return "hlsl-cbuffer-not-in-namemap", mech
+        return None, mech
+    if head == "verbatim" and len(f) == 5:
+        if f[2] == "cbuffer-type-clash" and t == "msl":
+            return "msl-cbuffer-struct-takes-user-name", "verbatim:msl:cbuffer-type-clash"
+        if f[2] == "generated-clash" and f[3] == "local":
+            return "local-renamed-next-to-generated-name", "verbatim:%s:generated-clash:local:L" % t
+        return None, mech
+    if head == "dup" and len(f) == 3:
+        ks = set(f[2])
+        if "#" in ks:
+            return "generated-names-not-reserved", "dup:%s:generated" % t
+        if ks & set("CD") and hlsl:
+            return "hlsl-cbuffer-not-in-namemap", "dup:%s:cbuffer" % t
+        if t == "msl" and ks == {"g"}:
+            return "msl-threaded-globals-share-leaf-name", "dup:msl:GG"
+        if t == "vkba" and ks == {"g"}:
+            return "vkba-inline-descriptor-members-share-leaf-name", "dup:vkba:GG"
+        return None, mech
+    if head == "dangling" and len(f) == 3:
+        if f[2] == "D" and hlsl:
+            return "hlsl-cbuffer-member-printed-by-leaf-name", mech
+        if f[2].endswith("~rel") and "@wrapper" not in f[2] and not set(f[2][:-4]) & set("MLg#CD"):
+            return "relative-path-resolves-elsewhere", "capture:%s:relative:by-nothing" % t
+        return None, mech
+    if head == "capture-builtin" and len(f) == 3:
+        if set(f[2]) & set("CD") and hlsl:
+            return "hlsl-cbuffer-not-in-namemap", "capture:%s:cbuffer" % t
+        return None, mech
+    if head == "capture" and len(f) == 4:
+        meant, got = f[2], f[3]
+        relative = got.endswith("~rel")
+        got = got.replace("~rel", "")
+        wrapper = got.endswith("@wrapper")
+        got = got.replace("@wrapper", "")
+        qualified = got.startswith("q")
+        got = got.lstrip("q")
+        ks = set(meant) | set(got)
+        w = "@wrapper" if wrapper else ""
+        if "#" in ks:
+            return "generated-names-not-reserved", "capture:%s:generated%s" % (t, w)
+        if ks & set("CD") and hlsl:
+            return "hlsl-cbuffer-not-in-namemap", "capture:%s:cbuffer" % t
+        if meant in ("S", "E", "t") and got == "L" and not wrapper:
+            return "local-captures-type-name", "capture:%s:type:by-local" % t
+        if t == "msl" and wrapper and meant == "F" and got == "L":
+            return "msl-entry-wrapper-parameter-captures-entry", "capture:msl:F:by-local@wrapper"
+        if ks & set("ML"):
+            return None, mech
+        if t == "msl" and not qualified and got and set(got) <= {"g", "G"} and "g" in got:
+            # the parameter / wrapper local of a threaded global is found instead of (or next to) what was meant
+            return "msl-threaded-globals-share-leaf-name", "capture:msl:by-threaded-global%s" % w
+        if t == "vkba" and set(got) == {"g"} and set(meant) == {"g"}:
+            return "vkba-inline-descriptor-members-share-leaf-name", "capture:vkba:inline-member"
+        if wrapper or not relative or "g" in ks:
+            return None, mech
+        return "relative-path-resolves-elsewhere", "capture:%s:relative:by-namespace-level-entity" % t
+    return None, mech
+
+
 def finding_key(req, obs, detail):
     """Key of an oracle failure = <defect site>/<mechanical key>.  The mechanical key is printed by the harness
     (`FAIL:<mechanical key> | <text>`) and names the target, the check that failed and the kinds of the entities
@@ -47,6 +120,9 @@ def finding_key(req, obs, detail):
     if m:
         return "panic %s: %s" % (m.group(1), re.sub(r"\d+", "N", m.group(2)))
     mech = d.split(" | ")[0]
+    if req.startswith("C15.res"):
+        site, key = res_key(mech)
+        return key if site is None else "res:" + site + "/" + key
     root = root_cause(mech)
     if root is None:
         return mech
